@@ -69,6 +69,14 @@ def step (c impl : String) : String :=
       if d2 == "-" then ok "tamper-empty-payload-rejected-by-deserialize"
       else if d2 == d then specViol "a modified ciphertext was accepted (same payload)" else specViol "a modified token decoded to a different position"
     | _ => if impl == "keyerr" || impl == "encerr" then "SKIP " ++ impl else modelDiff "rej|acc"
+  | ["api", ep, _] =>
+    if impl == "issued=ok next=ok forged=rej foreign=rej" then ok ("api-" ++ ep)
+    else if impl.startsWith "issued=" then specViol s!"endpoint {ep}: tokens are not bound to the configured key ({impl})"
+    else "SKIP " ++ impl
+  | ["conc", _, _, _] =>
+    if impl == "bad=0" then ok "concurrent-issuing"
+    else if impl.startsWith "bad=" then specViol s!"tokens issued concurrently do not decode back to their position ({impl})"
+    else "SKIP " ++ impl
   | ["xkey", k1, k2, _] =>
     if k1 == k2 then (if impl.startsWith "acc" then ok "xkey-same-key" false else modelDiff "acc")
     else if impl == "rej" then ok "foreign-key-rejected"
